@@ -136,6 +136,13 @@ loop:
 		return "", "", inherited, errors.New("zero length string")
 	}
 
+	if offset == 0 {
+		// reached end of input without any separator: same as a key terminated by a line break
+		key = src
+		offset = len(src)
+		inherited = true
+	}
+
 	if inherited && strings.IndexByte(key, ' ') == -1 {
 		p.line++
 	}
